@@ -286,6 +286,11 @@ func (c *Conn) waitGoroutines() error {
 		return errors.New("failed to wait for connection to be closed")
 	}
 
+	// The connection may have been closed by a goroutine of its own (a lock wait whose context
+	// expired, see mu.lock): it is done with the connection when it has released closeMu.
+	c.closeMu.Lock()
+	c.closeMu.Unlock()
+
 	return nil
 }
 
